@@ -12,16 +12,16 @@ CONSTANTS MaxLen,      \* keys of every length 0 .. MaxLen
 
 SeedN == (IF "C18_SEED" \in DOMAIN IOEnv THEN atoi(IOEnv.C18_SEED) ELSE 20261003) % 65537
 Lcg(x) == (x * 75 + 74) % 65537                     \* Lehmer-style generator, period 65536
-RECURSIVE LcgN(_, _)
-LcgN(x, n) == IF n = 0 THEN x ELSE LcgN(Lcg(x), n - 1)
+\* the first n+1 generator states from x0 (strict fold, no deep recursion)
+LcgStates(x0, n) == FoldLeft(LAMBDA acc, i : Append(acc, Lcg(acc[Len(acc)])), <<x0>>, [i \in 1 .. n |-> i])
 
 AllZero(L)   == [i \in 1 .. L |-> 0]
 AllFF(L)     == [i \in 1 .. L |-> 255]
 Counting(L)  == [i \in 1 .. L |-> i - 1]
 CountDown(L) == [i \in 1 .. L |-> 256 - i]
 SingleBit(L, p) == [i \in 1 .. L |-> IF i = (p \div 8) + 1 THEN 2 ^ (p % 8) ELSE 0]
-RandKey(L, j) == LET x0 == (SeedN + 977 * j + 131 * L) % 65537 IN [i \in 1 .. L |-> LcgN(x0, i + 3) % 256]
-RandSeed(j)   == LET x0 == (SeedN + 7919 * j) % 65537 IN <<LcgN(x0, 5) % 65536, LcgN(x0, 6) % 65536>>
+RandKey(L, j) == LET x0 == (SeedN + 977 * j + 131 * L) % 65537 xs == LcgStates(x0, L + 4) IN [i \in 1 .. L |-> xs[i + 4] % 256]
+RandSeed(j)   == LET x0 == (SeedN + 7919 * j) % 65537 xs == LcgStates(x0, 6) IN <<xs[6] % 65536, xs[7] % 65536>>
 
 BitPos(L) == IF L = 0 THEN {} ELSE {p \in 0 .. (8 * L - 1) : p % BitStep = (L % BitStep) \/ p = 0 \/ p = 8 * L - 1}
 MCKeys == UNION {   {AllZero(L), AllFF(L), Counting(L), CountDown(L)}
